@@ -140,7 +140,7 @@ static void feed_cc(int line, unsigned c1, unsigned c2) { feed_cc_raw(line, vbi_
 
 enum {
         /* headers, magazine 1 */
-        P_H100E, P_H100, P_H100S, P_H100SUB1, P_H100SUB2, P_H100NEWS, P_H100C7, P_H100NAT, P_H101,
+        P_H100E, P_H100, P_H100S, P_H100SUB1, P_H100SUB2, P_H100NEWS, P_H100C7, P_H100NAT, P_H101, P_H102, P_H103,
         P_H1F0, P_H1FD, P_H1FE, P_H1E7, P_H17A, P_H17B, P_H17C, P_H17D, P_H17E, P_H16A, P_H16B, P_H1FF,
         P_H200, P_H200S, P_H2FD, P_H800, P_H8FF, P_HBADPAGE, P_HBADSUB, P_HBADFLAGS,
         /* rows */
@@ -184,6 +184,9 @@ static void build_packets(void)
         pk_hdr(PN(P_H100C7, "H100+suppress+inhibit+update"), 1, 0x00, 0, 0x0B);
         pk_hdr(PN(P_H100NAT, "H100+national7"), 1, 0x00, 0x0080, 0xE0);
         pk_hdr(PN(P_H101, "H101+serial"), 1, 0x01, 0x0080, 0x10);
+        /* pages the MIP of P_MIP_R1 lists as subtitle pages (codes 0x70, 0x77): parse_mip_page() looks at their cached copy */
+        pk_hdr(PN(P_H102, "H102+erase (MIP: subtitle page)"), 1, 0x02, 0x0080, 0);
+        pk_hdr(PN(P_H103, "H103+erase (MIP: subtitle page)"), 1, 0x03, 0x0080, 0);
         pk_hdr(PN(P_H1F0, "H1F0(BTT)"), 1, 0xF0, 0x0080, 0);
         pk_hdr(PN(P_H1FD, "H1FD(MIP)"), 1, 0xFD, 0x0080, 0);
         pk_hdr(PN(P_H1FE, "H1FE(MOT)"), 1, 0xFE, 0x0080, 0);
